@@ -32,7 +32,7 @@ def state(drv):
 
 
 def run_case(c):
-    from indi.message import NewSwitchVector, SetSwitchVector
+    from indi.message import NewSwitchVector, SetSwitchVector, IndiMessage
     from indi.message.one_parts import OneSwitch
     hidden = c.get("hidden")
     drv, router = make_driver(c["rule"], c["init"], hidden=hidden)
@@ -60,8 +60,10 @@ def run_case(c):
                 else:
                     el.value = "On" if op[2] else "Off"
             elif op[0] == "write":
-                ch = [OneSwitch(name="S%d" % i, value="On" if v else "Off") for i, v in op[1]]
-                drv.message_from_client(NewSwitchVector(device="SW", name="SWV", children=ch))
+                # as it arrives from a peer: text on the wire, parsed by the library (values are fresh strings, not the constants)
+                xml = '<newSwitchVector device="SW" name="SWV">%s</newSwitchVector>' % "".join(
+                    '<oneSwitch name="S%d">%s</oneSwitch>' % (i, "On" if v else "Off") for i, v in op[1])
+                drv.message_from_client(IndiMessage.from_string(xml))
             elif op[0] == "selected":
                 names = ["S%d" % i for i in op[1]]
                 if op[2] == "single":
